@@ -83,7 +83,8 @@ def webvtt_write_language(c, layout_clauses=False):
     p = cur()
     k = c.pick("languages", [1, 2])
     lang = c.pick("lang", [None, "l0", "l1", "zz"])
-    LAYOUTS = ["layout-of-l0", "layout-of-l1"]
+    # (a language without a layout of its own: the cues then fall back to nothing - not to what an earlier write left)
+    LAYOUTS = ["layout-of-l0", "layout-of-l1"] if (not layout_clauses or c.pick("languages_have_layouts", [True, False])) else [None, None]
     lists = [SymList(z3.Const(f"captions_{i}", SEQ), Caption, attrs={"layout_info": LAYOUTS[i]}) for i in range(k)]
     p.assume(z3.Or(*[z3.Length(l.t) > 0 for l in lists]))             # (an empty set returns the bare header: separate path below)
     cs = c.new(CS, _captions={f"l{i}": lists[i] for i in range(k)}, _styles={}, layout_info=None)
